@@ -122,8 +122,8 @@ func init() {
 			out["a1_accepted"], out["a2"], out["a2_errs"] = ok2, a2, ae2
 		}
 		if len(e1) == 0 {
-			_, oks, es := analyzePrint(s1, st)
-			out["s1_accepted"], out["s1_an_errs"] = oks, es
+			s1a, oks, es := analyzePrint(s1, st)
+			out["s1_accepted"], out["s1_an_errs"], out["s1_a1"] = oks, es, s1a
 		}
 		return out, nil
 	}
